@@ -8,6 +8,8 @@
    the table from Go and runs the case again. *)
 From DepsDev Require Import Lib.Base Lib.Sx Semver.Version Semver.Maven Semver.Gem Semver.Pep440 Semver.Compare
      Semver.Token Semver.Span Semver.Interval Semver.Set Semver.Constraint Extract.CasesSemver.
+(* the boolean side conditions of the _partial theorems (only their definitions are used here) *)
+From DepsDev Require Semver.Set_proofs Semver.Inter_proofs Semver.C11_region.
 Local Open Scope Z_scope.
 
 (* ---------------------------------------------------------------- the need code *)
@@ -266,8 +268,8 @@ Definition canon_events (l : list span) : res (list sx) :=
 Definition union_events (a b : set) : res (list sx) := canon_events (set_span a ++ set_span b).
 Definition inter_events (a b : set) : res (list sx) :=
   match inter_rows (set_span a) (set_span b) with
-  | Ok out => canon_events out
-  | Err _ => Ok []
+  | Ok out => evs <- canon_events out;; Ok (open_units (set_span a ++ set_span b) ++ evs)
+  | Err _ => Ok (open_units (set_span a ++ set_span b))
   | Panic p => Panic p
   | OutOfFuel => OutOfFuel
   end.
@@ -309,27 +311,73 @@ Fixpoint disj_events (tbl : table) (sys : system) (alts : list sx) : res (list s
   | _ :: _ => Panic PExplicit
   end.
 
+(* ---------------------------------------------------------------- proved regions
+   The side conditions of C09_union_partial / C09_inter_partial evaluated on the given sets, so
+   that the driver can count how much of the evidence lies inside the proved region and treat
+   an oracle hit inside it as a contradiction of a theorem. *)
+Definition c09_sys_b (S : system) : bool := match S with SDefault | SNPM | SCargo | SGo => true | _ => false end.
+
+Definition union_region (a b : set) : bool :=
+  let S := set_sys a in
+  c09_sys_b S && Set_proofs.c09_dom_b S (set_span a ++ set_span b)
+  && negb (match set_span a with [] => true | _ => false end) && negb (match set_span b with [] => true | _ => false end).
+
+Definition inter_region (a b : set) : bool :=
+  let S := set_sys a in
+  c09_sys_b S &&
+  match set_span a, set_span b with
+  | [s], [t] => Inter_proofs.good_span_b S s && Inter_proofs.good_span_b S t && Inter_proofs.no_point_contact_b S s t
+  | _, _ => false
+  end.
+
 Definition k_setop_d : bytes := [115;101;116;111;112;95;100]%N.
 Definition k_setrt_d : bytes := [115;101;116;114;116;95;100]%N.
 Definition k_setdiag_d : bytes := [115;101;116;100;105;97;103;95;100]%N.
 
 (* the body of setop once the two sets are known *)
+(* the public route of a result: ParseSetConstraint(result.String()).MatchVersionPrerelease *)
+Definition pub_of (tbl : table) (sys : system) (o : option set) : res (option (option constraint)) :=
+  match o with
+  | None => Ok None
+  | Some st =>
+      str <- set_string st;;
+      match parse_set_constraint (pv_of tbl) sys str with
+      | Ok c => Ok (Some (Some c))
+      | Err _ => Ok (Some None)
+      | Panic p => Panic p
+      | OutOfFuel => OutOfFuel
+      end
+  end.
+
+Definition pub_mem (p : option (option constraint)) (v : version) : res sx :=
+  match p with
+  | None => Ok (SI (-1))
+  | Some None => Ok (SI (-2))
+  | Some (Some c) => b0 <- match_version_prerelease c v;; Ok (sx_bool b0)
+  end.
+
 Definition setop_body (tbl : table) (sys : system) (sa sb : set) (probes : list sx) : res sx :=
   u <- op_result (set_union sa sb);;
   i <- op_result (set_intersect sa sb);;
   u' <- op_result (set_union sb sa);;
   i' <- op_result (set_intersect sb sa);;
+  au <- op_result (set_union sa sa);;
+  ai <- op_result (set_intersect sa sa);;
+  pu <- pub_of tbl sys u;; pi <- pub_of tbl sys i;; pu' <- pub_of tbl sys u';; pi' <- pub_of tbl sys i';;
   ps <- parse_probes tbl sys probes;;
   rows <- map_res (fun o => match o with
                             | None => Ok (SL [SB s_verr])
                             | Some v =>
                                 r <- map_res (fun x => e <- mem x v false;; n <- mem x v true;; Ok [e; n])
                                              [Some sa; Some sb; u; i; u'; i'];;
-                                Ok (SL (concat r))
+                                p <- map_res (fun x => pub_mem x v) [pu; pi; pu'; pi'];;
+                                r2 <- map_res (fun x => e <- mem x v false;; n <- mem x v true;; Ok [e; n]) [au; ai];;
+                                Ok (SL (concat r ++ p ++ concat r2))
                             end) ps;;
   ia <- sx_set_info (Some sa);; ib <- sx_set_info (Some sb);;
   iu <- sx_set_info u;; ii <- sx_set_info i;; iu' <- sx_set_info u';; ii' <- sx_set_info i';;
-  Ok (SL [SB sym_ok; ia; ib; iu; ii; iu'; ii'; SL rows]).
+  iau <- sx_set_info au;; iai <- sx_set_info ai;;
+  Ok (SL [SB sym_ok; ia; ib; iu; ii; iu'; ii'; SL rows; SL [SI 1; SI 1; SI 1; SI 1]; iau; iai]).
 
 (* the body of setrt once the set is known: only prerelease-inclusive matching is observed *)
 Definition setrt_body (tbl : table) (sys : system) (st : set) (probes : list sx) : res sx :=
@@ -349,7 +397,64 @@ Definition setrt_body (tbl : table) (sys : system) (st : set) (probes : list sx)
                                                    | Some x => b0 <- match_version_prerelease x v;; Ok (sx_bool b0) end);;
                                 Ok (SL [sx_bool oi; ri])
                             end) ps;;
-  Ok (SL [SB sym_ok; SB s1; r; SL rows]).
+  Ok (SL [SB sym_ok; SB s1; r; SL rows; sx_bool (C11_region.c11_region (pv_of tbl) sys st)]).
+
+(* the region of the C03 composition theorems on a requirement given as alternatives of comparator
+   texts: every comparator is one span; along each and-list the side conditions of
+   C03_and_partial hold (good_span_b, no_point_contact_b) and the row stays one span; the
+   collected spans lie in the domain of C03_or_partial (c09_dom_b).  The shape of the comparators
+   themselves (operator + full release version) is checked by the driver on the text. *)
+Definition single_span (tbl : table) (sys : system) (t : bytes) : res (option span) :=
+  match parse_constraint (pv_of tbl) sys t with
+  | Ok c => Ok (match set_span (c_set c) with [s] => Some s | _ => None end)
+  | Err _ => Ok None
+  | Panic p => Panic p
+  | OutOfFuel => OutOfFuel
+  end.
+
+Fixpoint conj_region (tbl : table) (sys : system) (cur : span) (texts : list sx) : res (option span) :=
+  match texts with
+  | [] => Ok (Some cur)
+  | SB t :: rest =>
+      o <- single_span tbl sys t;;
+      match o with
+      | None => Ok None
+      | Some s0 =>
+          if Inter_proofs.good_span_b sys cur && Inter_proofs.good_span_b sys s0 && Inter_proofs.no_point_contact_b sys cur s0 then
+            match inter_row cur [s0] with
+            | Ok [r] => conj_region tbl sys r rest
+            | Ok _ => Ok None
+            | Err _ => Ok None
+            | Panic p => Panic p
+            | OutOfFuel => OutOfFuel
+            end
+          else Ok None
+      end
+  | _ :: _ => Ok None
+  end.
+
+Fixpoint disj_region (tbl : table) (sys : system) (alts : list sx) : res (option (list span)) :=
+  match alts with
+  | [] => Ok (Some [])
+  | SL (SB t0 :: texts) :: rest =>
+      o <- single_span tbl sys t0;;
+      match o with
+      | None => Ok None
+      | Some s0 =>
+          r <- conj_region tbl sys s0 texts;;
+          r2 <- disj_region tbl sys rest;;
+          Ok (match r, r2 with Some x, Some l => Some (x :: l) | _, _ => None end)
+      end
+  | _ :: _ => Ok None
+  end.
+
+Definition c03_region (tbl : table) (sys : system) (alts : list sx) : res bool :=
+  r <- disj_region tbl sys alts;;
+  Ok (match r with
+      | Some [x] => true                 (* one alternative: canon leaves a single span alone *)
+      | Some (x :: l) => Set_proofs.c09_dom_b sys (x :: l)
+      | _ => false
+      end).
 
 Definition k_creqseq : bytes := [99;114;101;113;115;101;113]%N.
 
@@ -425,7 +530,7 @@ Definition run_Constraint (kind : bytes) (a : sx) : option sx :=
                                                                | OutOfFuel => OutOfFuel
                                                                end
                                                            | _ => Panic PExplicit end);;
-                                                    let mr := if sys_eqb sys SNPM then ms else SI (-1) in
+                                                    let mr := if sys_eqb sys SNPM || sys_eqb sys SMaven || sys_eqb sys SPyPI then ms else SI (-1) in
                                                     match o with
                                                     | None => Ok (SL [SB s_verr; ms; mr])
                                                     | Some v =>
@@ -446,23 +551,7 @@ Definition run_Constraint (kind : bytes) (a : sx) : option sx :=
                   if negb (is_ascii_edge ta && is_ascii_edge tb_) then oom else
                   sx_out (ca <- parse_constraint (pv_of tbl) sys ta;;
                           cb <- parse_constraint (pv_of tbl) sys tb_;;
-                          let sa := c_set ca in
-                          let sb := c_set cb in
-                          u <- op_result (set_union sa sb);;
-                          i <- op_result (set_intersect sa sb);;
-                          u' <- op_result (set_union sb sa);;
-                          i' <- op_result (set_intersect sb sa);;
-                          ps <- parse_probes tbl sys probes;;
-                          rows <- map_res (fun o => match o with
-                                                    | None => Ok (SL [SB s_verr])
-                                                    | Some v =>
-                                                        r <- map_res (fun x => e <- mem x v false;; n <- mem x v true;; Ok [e; n])
-                                                                     [Some sa; Some sb; u; i; u'; i'];;
-                                                        Ok (SL (concat r))
-                                                    end) ps;;
-                          ia <- sx_set_info (Some sa);; ib <- sx_set_info (Some sb);;
-                          iu <- sx_set_info u;; ii <- sx_set_info i;; iu' <- sx_set_info u';; ii' <- sx_set_info i';;
-                          Ok (SL [SB sym_ok; ia; ib; iu; ii; iu'; ii'; SL rows]))
+                          setop_body tbl sys (c_set ca) (c_set cb) probes)
               | _, _ => badcase
               end
           | _ => badcase end)
@@ -524,7 +613,11 @@ Definition run_Constraint (kind : bytes) (a : sx) : option sx :=
               | Some sa, Some sb =>
                   sx_out (eu <- union_events sa sb;; ei <- inter_events sa sb;;
                           eu' <- union_events sb sa;; ei' <- inter_events sb sa;;
-                          Ok (SL [SB sym_ok; SL eu; SL ei; SL eu'; SL ei']))
+                          eau <- union_events sa sa;; eai <- inter_events sa sa;;
+                          Ok (SL [SB sym_ok; SL eu; SL ei; SL eu'; SL ei';
+                                  sx_bool (union_region sa sb && union_region sb sa);
+                                  sx_bool (inter_region sa sb && inter_region sb sa);
+                                  SL eau; SL eai]))
               | _, _ => badcase
               end
           | _ => badcase end)
@@ -551,7 +644,8 @@ Definition run_Constraint (kind : bytes) (a : sx) : option sx :=
               | Some sys, Some tbl =>
                   sx_out (r <- disj_events tbl sys alts;;
                           ev <- canon_events (fst r);;
-                          Ok (SL [SB sym_ok; SL (snd r ++ ev)]))
+                          reg <- c03_region tbl sys alts;;
+                          Ok (SL [SB sym_ok; SL (snd r ++ ev); sx_bool reg]))
               | _, _ => badcase
               end
           | _ => badcase end)
